@@ -1,4 +1,4 @@
-use rusty_parser::{AsBareName, Expression};
+use rusty_parser::{AsBareName, Expression, TypeQualifier};
 
 use super::expression_reducer::*;
 use crate::core::{LintErrorPos, LinterContext, binary_cast};
@@ -32,9 +32,23 @@ impl<'a> ExpressionReducer for UndefinedFunctionReducer<'a> {
                     ))
                 } else {
                     // the user_defined_function_linter already ensures that the args are valid
-                    Ok(Expression::IntegerLiteral(0))
+                    match name.qualifier() {
+                        Some(TypeQualifier::DollarString) => {
+                            Ok(Expression::StringLiteral(String::new()))
+                        }
+                        _ => Ok(Expression::IntegerLiteral(0)),
+                    }
                 }
             }
+            Expression::Parenthesis(child) => {
+                let mapped_child = self.visit_expression_pos(*child)?;
+                Ok(Expression::Parenthesis(Box::new(mapped_child)))
+            }
+            Expression::ArrayElement(name, indices, variable_info) => Ok(Expression::ArrayElement(
+                name,
+                self.visit_expressions(indices)?,
+                variable_info,
+            )),
             Expression::BuiltInFunctionCall(name, args) => Ok(Expression::BuiltInFunctionCall(
                 name,
                 self.visit_expressions(args)?,
